@@ -39,7 +39,7 @@ def one(fn):
         tests = ""
         if run_tests:
             env = dict(os.environ, PYTHONPATH=d, PYTHONDONTWRITEBYTECODE="1")
-            t = subprocess.run(["/venv/bin/python", "-m", "pytest", "-q", "-x", "-p", "no:cacheprovider", "tests"],
+            t = subprocess.run(["/venv/bin/python", "-m", "pytest", "-q", "-x", "-p", "no:cacheprovider", "--timeout=60", "tests"],
                                cwd=d, env=env, capture_output=True, text=True)
             tests = "tests-pass" if t.returncode == 0 else "tests-FAIL"
         res = []
